@@ -294,8 +294,10 @@ def run(ctx, rep):
     rets_true = [n for n in cfg.live_nodes() if n.kind == "return" and utext(n.ast.value) == "True"]
     good = len(inc) == 1 and len(rets_true) == 1
     if good:
+        from sa.kinds import holds
         gs = {(utext(g.exprs[0]), pol) for g, pol in cfg.guards(rets_true[0].id)}
-        good = (ct("self._retry_count < self._max_retries"), True) in gs and cfg.dominates(inc[0].id, rets_true[0].id)
+        # the two counters are ints (set in __init__, only ever += 1): `not (count >= max)` is `count < max`
+        good = holds(gs, "self._retry_count < self._max_retries", total_order=True) and cfg.dominates(inc[0].id, rets_true[0].id)
     rep.check(good, "R4", key(rt, None, "retry() returns True only below the limit and after counting"), rt)
     writers = [(f2, s) for f2, s, t, kind in all_stores(prog, "_retry_count")]
     rep.check(all(f2.qual in ("BaseOrderPackage.__init__", "BaseOrderPackage.retry") for f2, s in writers), "R4",
